@@ -97,12 +97,12 @@ Print Assumptions C17_stale_cache_no_residue.
 (* (I refines S, at the level of the public API) REFUSED CALLS INSIDE ANY HISTORY: between a close and the next open of a series
    that exists, any number of creates of the same name - with ANY payload size and ANY header (the "create, else open" start-up
    of an application; headers too large for the length field included) - and of opens that demand another payload size than
-   the stored one (JudgeFacts.HRefused / rtry / try_valid), at any point of a history of appends, reads, clean reopens and
+   the stored one, and of opens of OTHER series that do not exist (JudgeFacts.HRefused / rtry / try_valid), at any point of a history of appends, reads, clean reopens and
    crashes: the model answers each with an error, the judge accepts it, every file of the model stays byte for byte what the
    judge expects (nothing is created, removed or altered), and the open that follows continues the same series *)
 Theorem C17_refused_calls_accepted_by_judge : forall (name:list byte) (p:nat) (hdr:list byte),
   (len (params_to_text BSgen.Consts.version (N.of_nat p) ++ hdr) <= 65535)%N -> (N.of_nat p < 2^64)%N ->
-  forall cb hs, JudgeFacts.hvalid p hdr [] hs ->
+  forall cb hs, JudgeFacts.hvalid name p hdr [] hs ->
   accepted World.init_world judge_init (ONew name (N.of_nat p) hdr [] cb :: JudgeFacts.flatten name hs).
 Proof. exact history_accepted. Qed.
 Print Assumptions C17_refused_calls_accepted_by_judge.
